@@ -69,7 +69,10 @@ class _Runner(_Processor):
         self._tasks.discard(task)
         self._limiter.release()
         self._tasks_processed += 1
-        if self.max_tasks_hit:
+        # consumption stops once the allowed number of executions has been STARTED; counting the
+        # slots in use instead (`max_tasks_hit`) would stop - and cancel - a queue loop which has just
+        # been handed a slot for the last allowed message and has not started it yet
+        if self._tasks_started >= self.max_tasks:
             self.stop_consume_event.set()
 
     async def _process_with_event(
